@@ -6,4 +6,4 @@ Set Extraction KeepSingleton.
 Extraction "model_al.ml"
   Z.add Z.sub Z.mul Z.div Z.modulo Z.abs Z.opp Z.leb Z.ltb Z.eqb Z.of_nat Z.to_nat Z.of_N Z.to_N
   errno
-  al_new2 al_step al_get al_length al_bsearch al_free al_cells.
+  al_new2 al_step al_get al_length al_bsearch al_bsearch_km cmp_km al_free al_cells.
